@@ -167,6 +167,17 @@ pub(crate) fn run(seed: u64, n: u64, out: &mut Out) {
                     break;
                 }
             }
+            // "nor block agreement among the rest": a tick that panics although a quorum of the proven peers that agree with everything
+            // final so far report the same next value finalizes nothing, now and at every later tick with these peers.  (Without a panic
+            // the code may stop early at the shortest agreeing list and go on at the next tick: not judged here, the model follows it.)
+            if r.is_err() {
+                let j = new_max as u64 + 1;
+                let mut votes: Vec<(&packed::Byte32, usize)> = Vec::new();
+                for (_, s, v) in agreeing.iter() { if let Some(x) = v.get((j - *s as u64) as usize) { if let Some(e) = votes.iter_mut().find(|e| e.0 == x) { e.1 += 1; } else { votes.push((x, 1)); } } }
+                if let Some((_, c)) = votes.iter().max_by_key(|e| e.1) {
+                    if *c >= required { problems.push(format!("[C07-agreement-blocked] {} proven peers that agree with every final check point report the same value for check point {} ({} required) and the tick panicked: {}", c, j, required, super::last_panic())); }
+                }
+            }
             // contradiction: a proven peer whose value at the final index differs is banned (when finalization runs at all)
             if plist.len() >= required {
                 for (id, s, v) in &plist {
